@@ -1072,6 +1072,11 @@ def c_printf(sp, args):
         return b"%"
     conv = sp[-1]
     body = sp[1:-1]
+    if conv in "diuxXo" and "." in body:
+        # C: "if a precision is given with an integer conversion, the 0 flag is ignored"
+        # (Python's % operator does NOT follow C here, so drop the flag before delegating to it)
+        m = re.match(r"^([-+ #0]*)(.*)$", body)
+        body = m.group(1).replace("0", "") + m.group(2)
     try:
         if conv in "di":
             if "#" in body:
